@@ -107,6 +107,8 @@ def gen_case(rng):
                 # or text in an encoding the detector names (UTF-16 with its byte-order mark, Shift-JIS)
                 fl['raw_hex'] = rng.choice(['caf\u00e9 \u65e5\u672c\nline 2\nline 3\n'.encode('utf-16'),
                                             ('\u65e5\u672c\u8a9e\u306e\u30c6\u30ad\u30b9\u30c8\u3067\u3059\u3002\n' * 6).encode('cp932')]).hex()
+                # (UTF-16 announces itself with its byte-order mark: also with a single run)
+                fl['raw_any_runs'] = fl['raw_hex'].startswith(('fffe', 'feff'))
         if any(target_of(f) == target_of(fl) for f in files):
             fl['name'] = 'n%d_%s' % (j, name)       # (two outputs of one command are two files)
         files.append(fl)
@@ -149,7 +151,7 @@ def gen_case(rng):
             'preexisting': rng.random() < 0.25, 'preserve_times': rng.random() < 0.3,
             'old_bystanders': rng.random() < 0.3,
             # another generated test (test_cmd.py with its reference directory ref/cmd) is already there
-            'prior_test': rng.random() < 0.25, 'echo_tmpdir': rng.random() < 0.12, 'empty_glob': rng.random() < 0.1}
+            'prior_test': rng.random() < 0.25, 'echo_tmpdir': rng.choice([False] * 7 + [True, 'bare']), 'empty_glob': rng.random() < 0.1}
 
 
 def echoes_tmpdir(case):
@@ -202,14 +204,15 @@ def build_dir(case, d):
     else:
         parts.append('cat in_out')
     if echoes_tmpdir(case):
-        parts.append('echo "scratch area: $TMPDIR/x"')       # (the generator points TMPDIR at a directory of its own)
+        # (the generator points TMPDIR at a directory of its own; named with a path below it, or bare)
+        parts.append('echo "scratch area: $TMPDIR"' if case.get('echo_tmpdir') == 'bare' else 'echo "scratch area: $TMPDIR/x"')
     parts.append('cat in_err >&2')
     refs = []
     for fi, fl in enumerate(case['files']):
         src = src_of(fl, fi)
         mode = 'wb'
         data = subst(fl['content'], d).encode('utf-8') if fl['kind'] == 'text' else bytes.fromhex(fl['content'])
-        if fl.get('raw_hex') and case.get('iterations', 2) >= 2:
+        if fl.get('raw_hex') and (case.get('iterations', 2) >= 2 or fl.get('raw_any_runs')):
             data = bytes.fromhex(fl['raw_hex'])
         with open(os.path.join(d, src), mode) as f:
             f.write(data)
